@@ -157,6 +157,21 @@ def cases(rng, tier):
                     dense = cat.kron(Ka, Kb)
                     return torch.equal(got, dense[tuple(ia)] @ Xk[tuple(ib)])
                 out.append((f"C01/corr/broadcast[ra={len(sa)}|rb={len(sb)}]/member-of-{which}", f"brestrict {fs_(shp_)} {fs_(idx)}", ("check", member)))
+        # ---- BlockLinearOperator.__init__: where the constructor moves a block_dim != -3
+        nbt = rng.choice([1, 2, 3])
+        sizes = rng.sample([2, 3, 4, 5], nbt)
+        Tblk = ri(rng, (*sizes, 2, 2), dtype=dt)
+        for bd in sorted({rng.randrange(nbt), rng.randrange(nbt) - (nbt + 2), 0, -(nbt + 2)}):
+            def moved(Tblk=Tblk, bd=bd, sizes=sizes, nbt=nbt):
+                outs_ = []
+                for cls in (BlockDiagLinearOperator, BlockInterleavedLinearOperator, SumBatchLinearOperator):
+                    base = cls(DenseLinearOperator(Tblk.clone()), block_dim=bd).base_linear_op
+                    perm = [sizes.index(v) for v in base.shape[:-2]]
+                    if not torch.equal(base.to_dense(), Tblk.permute(*perm, nbt, nbt + 1)):
+                        return "values of base_linear_op are not the permuted input"
+                    outs_.append(",".join(map(str, perm)))
+                return outs_[0] if len(set(outs_)) == 1 else "classes disagree: " + " / ".join(outs_)
+            out.append((f"C01/corr/blockDimMove[nb={nbt}|block_dim={bd}]/base_linear_op", f"blockperm {nbt} {bd}", moved))
         # ---- block operators
         k, m = rng.randint(1, 3), rng.randint(1, 3)
         B = ri(rng, (k, m, m), dtype=dt)
